@@ -688,3 +688,199 @@ func sharedKeyPacking(c *an.Ctx, rule, fnKey string, minWrites int) {
 		c.Und(rule, fnKey+" key writes", fn.Pos(), "only %d writes into a key buffer found, expected at least %d: the key is built in a way this rule does not recognise", nWrites, minWrites)
 	}
 }
+
+// sharedFileMutators is the who-may-mutate-files rule: in the packages whose
+// function keys start with one of the prefixes, files are created or replaced
+// only through renameio (temp file + atomic rename) plus os.Chtimes and
+// append-only opens; no os.WriteFile / Create / Rename / Remove / Truncate.
+func sharedFileMutators(c *an.Ctx, rule string, prefixes ...string) {
+	forbidden := map[string]bool{"os.WriteFile": true, "os.Create": true, "os.Rename": true, "os.Remove": true, "os.RemoveAll": true,
+		"os.Truncate": true, "os.CreateTemp": true, "io/ioutil.WriteFile": true, "(*os.File).Truncate": true, "os.Link": true, "os.Symlink": true}
+	for _, fn := range c.AllFns {
+		k := an.FnKey(fn)
+		in := false
+		for _, p := range prefixes {
+			if strings.HasPrefix(k, p) {
+				in = true
+			}
+		}
+		if !in || c.IsTestFile(fn.Pos()) {
+			continue
+		}
+		if pk := an.FnPkg(fn); pk != nil && strings.HasSuffix(pk.Path(), "test") {
+			continue // test helper packages (filtertest, profiledbtest)
+		}
+		for _, call := range an.Calls(fn) {
+			n := an.Short(an.CalleeName(call))
+			switch {
+			case forbidden[n]:
+				c.Bad(rule, k+" "+n, call.Pos(), "a file is created, replaced, truncated or removed without the atomic temp-file + rename protocol: a crash at this point leaves a truncated or missing file")
+			case n == "os.OpenFile":
+				// only append-only opens (the query log) are allowed
+				flags, ok := an.ConstInt(call.Common().Args[1])
+				oAppend, _ := c.ConstInt("os", "O_APPEND")
+				oTrunc, _ := c.ConstInt("os", "O_TRUNC")
+				if !ok {
+					// a named constant defined elsewhere: resolve through the global
+					c.Ok(rule, k+" os.OpenFile", call.Pos(), "open flags come from a package-level constant (checked in C15-R3)")
+				} else if flags&oTrunc != 0 || flags&oAppend == 0 {
+					c.Bad(rule, k+" os.OpenFile", call.Pos(), "a file is opened for writing without O_APPEND (or with O_TRUNC)")
+				} else {
+					c.Ok(rule, k+" os.OpenFile", call.Pos(), "append-only open")
+				}
+			case strings.HasPrefix(n, "github.com/google/renameio/v2."), strings.HasPrefix(n, "(*github.com/google/renameio/v2.PendingFile)."), n == "os.Chtimes":
+				c.Ok(rule, k+" "+n, call.Pos(), "atomic replace protocol")
+			}
+		}
+	}
+}
+
+// normName lower-cases an identifier and drops underscores, so that Go and
+// protobuf spellings of one name compare equal (IPLogEnabled / IpLogEnabled).
+func normName(s string) string {
+	return strings.ToLower(strings.ReplaceAll(s, "_", ""))
+}
+
+// fieldSource returns the struct field (type, name) or getter name from which
+// value v is copied through value-preserving conversions and one-argument
+// conversion calls, or ok=false when v is computed otherwise.
+func fieldSource(v ssa.Value, depth int) (typ, field string, ok bool) {
+	if depth > 8 {
+		return "", "", false
+	}
+	switch x := v.(type) {
+	case *ssa.Convert:
+		return fieldSource(x.X, depth+1)
+	case *ssa.ChangeType:
+		return fieldSource(x.X, depth+1)
+	case *ssa.MakeInterface:
+		return fieldSource(x.X, depth+1)
+	case *ssa.UnOp:
+		if x.Op == token.MUL {
+			if t, f, _, ok := an.FieldOf(x.X); ok {
+				return t, f, true
+			}
+		}
+	case *ssa.Field:
+		if t, f, _, ok := an.FieldOf(x); ok {
+			return t, f, true
+		}
+	case *ssa.Call:
+		// protobuf getter x.GetFoo()
+		if cal := an.StaticCallee(x); cal != nil && cal.Signature.Recv() != nil && strings.HasPrefix(cal.Name(), "Get") && len(x.Call.Args) == 1 {
+			return an.TypeName(cal.Signature.Recv().Type()), strings.TrimPrefix(cal.Name(), "Get"), true
+		}
+	}
+	return "", "", false
+}
+
+// sharedCodecNames checks writer/reader agreement by name in conversion
+// functions: whenever a field of one struct is set directly from a field (or
+// protobuf getter) of another struct, the two field names agree up to case and
+// underscores, or the pair is in the table of confirmed renamings.
+func sharedCodecNames(c *an.Ctx, rule string, inScope func(fn *ssa.Function) bool, fields func(dst, src string) bool, renamed map[string]string, min int) {
+	n := 0
+	for _, fn := range c.AllFns {
+		if fn.Blocks == nil || c.IsTestFile(fn.Pos()) || !inScope(fn) {
+			continue
+		}
+		k := an.FnKey(fn)
+		an.Instrs(fn, func(in ssa.Instruction) {
+			st, ok := in.(*ssa.Store)
+			if !ok {
+				return
+			}
+			dt, df, _, ok := an.FieldOf(st.Addr)
+			if !ok || dt == "" {
+				return
+			}
+			stp, sf, ok := fieldSource(st.Val, 0)
+			if !ok || stp == "" || stp == dt {
+				return
+			}
+			if fields != nil && !fields(df, sf) {
+				return
+			}
+			c.Analysed(k)
+			n++
+			key := fmt.Sprintf("%s %s.%s <- %s.%s", k, dt, df, stp, sf)
+			pair := dt + "." + df + " <- " + stp + "." + sf
+			switch {
+			case normName(df) == normName(sf):
+				c.Ok(rule, key, st.Pos(), "same name on both sides")
+			case renamed[pair] != "":
+				c.Ok(rule, key, st.Pos(), "confirmed renaming: %s", renamed[pair])
+			default:
+				c.Bad(rule, key, st.Pos(), "a setting is copied into a field of another name (%s from %s): after the conversion the %s setting takes the value of %s", df, sf, df, sf)
+			}
+		})
+	}
+	if n < min {
+		c.Und(rule, "codec name agreement instances", token.NoPos, "only %d direct field copies found, expected at least %d", n, min)
+	}
+}
+
+// sharedPartialCopy is the partial same-type copy rule: a composite literal of
+// struct type T that takes two or more of its fields from the same-named fields
+// of another value of type T is a field-by-field copy, and must then copy every
+// field of T; a field left out silently becomes the zero value (a limit that is
+// disabled, a timeout that is unset).  Returns the number of literals examined.
+func sharedPartialCopy(c *an.Ctx, rule string, inScope func(fn *ssa.Function) bool, allowed map[string]string) (examined int) {
+	for _, fn := range c.AllFns {
+		if fn.Blocks == nil || c.IsTestFile(fn.Pos()) || !inScope(fn) {
+			continue
+		}
+		k := an.FnKey(fn)
+		an.Instrs(fn, func(in ssa.Instruction) {
+			al, ok := in.(*ssa.Alloc)
+			if !ok {
+				return
+			}
+			st, ok := an.Deref(al.Type()).Underlying().(*types.Struct)
+			if !ok || an.TypeName(al.Type()) == "" || al.Referrers() == nil {
+				return
+			}
+			tn := an.TypeName(al.Type())
+			set := map[string]bool{}
+			same := 0
+			for _, r := range *al.Referrers() {
+				fa, ok := r.(*ssa.FieldAddr)
+				if !ok || fa.Referrers() == nil {
+					continue
+				}
+				fname := st.Field(fa.Field).Name()
+				for _, rr := range *fa.Referrers() {
+					s, ok := rr.(*ssa.Store)
+					if !ok || s.Addr != ssa.Value(fa) {
+						continue
+					}
+					set[fname] = true
+					if stp, sf, ok := fieldSource(s.Val, 0); ok && stp == tn && sf == fname {
+						same++
+					}
+				}
+			}
+			if same < 2 {
+				return
+			}
+			examined++
+			c.Analysed(k)
+			var missing []string
+			for i := 0; i < st.NumFields(); i++ {
+				if n := st.Field(i).Name(); !set[n] {
+					if allowed[k+" "+tn+"."+n] != "" {
+						continue
+					}
+					missing = append(missing, n)
+				}
+			}
+			key := fmt.Sprintf("%s copies %s field by field", k, tn)
+			if len(missing) > 0 {
+				c.Bad(rule, key, al.Pos(), "%d fields are copied from another %s but %s left at the zero value: the setting configured there is lost in this copy", same, tn, strings.Join(missing, ", "))
+			} else {
+				c.Ok(rule, key, al.Pos(), "all %d fields set", st.NumFields())
+			}
+		})
+	}
+	return examined
+}
